@@ -320,7 +320,7 @@ ADDED = {
     "C13": "Also: hash() reads only what eq() compares and no shared cell's contents (hash-eq; list keys are a known finding); a list/map operation "
            "mutably borrows its receiver only (effects-confined); hashable-key predicate vs the run-time Hash table; index dispatch; fresh results.",
     "C14": "Also: the float-to-int range guards of to_int / to_bigint; strip-once; a removed `0x` marker selects base 16 (marker-radix); conversion arms evaluated at the boundaries of their integer domain (domain); index unit of s[i] (known finding).",
-    "C16": "Also: index / surplus-argument accesses in builders; borrow discipline of RefCell guards; collection-length subtractions are guarded (len-minus).",
+    "C16": "Also: index / surplus-argument accesses in builders; borrow discipline of RefCell guards; collection-length subtractions are guarded (len-minus); the parser's recursion depth is bounded (depth; known finding).",
     "C17": "Also: from_str_radix radix range; container taint for indexing program lists; frames held during a call; borrow discipline.",
     "C18": "Also: the index unit of the transpiler's split (char vs byte).",
 }
